@@ -34,7 +34,7 @@ type sgen struct {
 	stmtN   int
 }
 
-func (g *sgen) known(id string) bool { return rec.Known(id) }
+func (g *sgen) known(id string) bool { return isKnown(id) }
 
 func (g *sgen) isInt() bool { return g.T.cls == "int" || g.T.cls == "uint" }
 
@@ -247,6 +247,15 @@ func (g *sgen) rhs(depth int) string {
 	}
 }
 
+// typed gives a literal the type T explicitly (for blank destinations, where an untyped
+// constant would take its default type).
+func (g *sgen) typed(r string) string {
+	if isLitText(r) {
+		return g.T.name + "(" + r + ")"
+	}
+	return r
+}
+
 func isLitText(s string) bool {
 	if s == "" {
 		return false
@@ -388,6 +397,9 @@ func (g *sgen) multi() string {
 		}
 		for k := range r {
 			r[k] = g.rhs(1)
+			if l[k] == "_" {
+				r[k] = g.typed(r[k])
+			}
 		}
 		return strings.Join(l, ", ") + " = " + strings.Join(r, ", ")
 	case 4: // tuple-returning call
@@ -413,9 +425,9 @@ func (g *sgen) multi() string {
 	case 6: // two places with blank
 		g.Tag("multi:blank")
 		if g.Bool("side") {
-			return fmt.Sprintf("_, %s = %s, %s", g.place().text, g.rhs(1), g.rhs(1))
+			return fmt.Sprintf("_, %s = %s, %s", g.place().text, g.typed(g.rhs(1)), g.rhs(1))
 		}
-		return fmt.Sprintf("%s, _ = %s, %s", g.place().text, g.rhs(1), g.rhs(1))
+		return fmt.Sprintf("%s, _ = %s, %s", g.place().text, g.rhs(1), g.typed(g.rhs(1)))
 	case 7: // container variable and its element: operands of the index expression are evaluated first
 		g.Tag("multi:container,elem")
 		switch g.Pick(4, "cont") {
@@ -493,7 +505,7 @@ func (g *sgen) stmt() string {
 		multi = true
 	case k < 19:
 		g.Tag("blank-assign")
-		s = "_ = " + g.rhs(2)
+		s = "_ = " + g.typed(g.rhs(2))
 	default:
 		if g.nt == "" {
 			g.nt = "panicking-statement"
@@ -572,7 +584,7 @@ func Generate(t *rapid.T, px string) gobatch.Program {
 	w("_, _, _, _, _, _ = big, neg, zz, nm, np, nps")
 	w("dump := func(n int) {")
 	w("\trec.E(n, x0, x1, %sg1, i, j, ok, arr, sl, sl2, *px)", px)
-	w("\trec.E(n, m, m2, ms, st, *ps, as, %sgs, msl, *mp[0], *mp[1], pa == &arr, len(sl), len(m))", px)
+	w("\trec.E(n, m, m2, ms, st, *ps, as, %sgs, msl, *mp[0], *mp[1], len(sl), len(m))", px)
 	w("}")
 	w("dump(0)")
 	n := g.Int(3, 14, "nstmts")
